@@ -75,17 +75,23 @@ Record aux := {
   pnd : nat -> pend;           (* by model thread *)
   dfr : nat -> bool;           (* co.yield seen while the wrapper is about to return Done: decided by the next event *)
   stn : nat -> nat;            (* worker: push_backs seen during the steal attempt in progress *)
-  cend : nat -> bool }.        (* worker: the empty bulk_pop was seen, sc.collected expected *)
+  cend : nat -> bool;          (* worker: the empty bulk_pop was seen, sc.collected expected *)
+  gcl : nat -> nat;            (* global queue k: slots claimed so far, modulo the block size of may_queue::mpsc *)
+  dfp : nat -> nat;            (* thread: it claimed the LAST slot of a block (1; 2 = `ready` stored): the push takes effect later *)
+  dq : nat -> option nat }.    (* global queue k: the thread whose last-slot push is still to take effect *)
 
 Definition aux0 := {| wact := []; bindx := []; slotb := []; pnd := fun _ => PdNone; dfr := fun _ => false;
-                      stn := fun _ => 0%nat; cend := fun _ => false |}.
-Definition x_wact x v := {| wact := v; bindx := bindx x; slotb := slotb x; pnd := pnd x; dfr := dfr x; stn := stn x; cend := cend x |}.
-Definition x_bindx x v := {| wact := wact x; bindx := v; slotb := slotb x; pnd := pnd x; dfr := dfr x; stn := stn x; cend := cend x |}.
-Definition x_slotb x v := {| wact := wact x; bindx := bindx x; slotb := v; pnd := pnd x; dfr := dfr x; stn := stn x; cend := cend x |}.
-Definition x_pnd x v := {| wact := wact x; bindx := bindx x; slotb := slotb x; pnd := v; dfr := dfr x; stn := stn x; cend := cend x |}.
-Definition x_dfr x v := {| wact := wact x; bindx := bindx x; slotb := slotb x; pnd := pnd x; dfr := v; stn := stn x; cend := cend x |}.
-Definition x_stn x v := {| wact := wact x; bindx := bindx x; slotb := slotb x; pnd := pnd x; dfr := dfr x; stn := v; cend := cend x |}.
-Definition x_cend x v := {| wact := wact x; bindx := bindx x; slotb := slotb x; pnd := pnd x; dfr := dfr x; stn := stn x; cend := v |}.
+                      stn := fun _ => 0%nat; cend := fun _ => false; gcl := fun _ => 0%nat; dfp := fun _ => 0%nat; dq := fun _ => None |}.
+Definition x_wact x v := {| wact := v; bindx := bindx x; slotb := slotb x; pnd := pnd x; dfr := dfr x; stn := stn x; cend := cend x; gcl := gcl x; dfp := dfp x; dq := dq x |}.
+Definition x_bindx x v := {| wact := wact x; bindx := v; slotb := slotb x; pnd := pnd x; dfr := dfr x; stn := stn x; cend := cend x; gcl := gcl x; dfp := dfp x; dq := dq x |}.
+Definition x_slotb x v := {| wact := wact x; bindx := bindx x; slotb := v; pnd := pnd x; dfr := dfr x; stn := stn x; cend := cend x; gcl := gcl x; dfp := dfp x; dq := dq x |}.
+Definition x_pnd x v := {| wact := wact x; bindx := bindx x; slotb := slotb x; pnd := v; dfr := dfr x; stn := stn x; cend := cend x; gcl := gcl x; dfp := dfp x; dq := dq x |}.
+Definition x_dfr x v := {| wact := wact x; bindx := bindx x; slotb := slotb x; pnd := pnd x; dfr := v; stn := stn x; cend := cend x; gcl := gcl x; dfp := dfp x; dq := dq x |}.
+Definition x_stn x v := {| wact := wact x; bindx := bindx x; slotb := slotb x; pnd := pnd x; dfr := dfr x; stn := v; cend := cend x; gcl := gcl x; dfp := dfp x; dq := dq x |}.
+Definition x_cend x v := {| wact := wact x; bindx := bindx x; slotb := slotb x; pnd := pnd x; dfr := dfr x; stn := stn x; cend := v; gcl := gcl x; dfp := dfp x; dq := dq x |}.
+Definition x_gcl x v := {| wact := wact x; bindx := bindx x; slotb := slotb x; pnd := pnd x; dfr := dfr x; stn := stn x; cend := cend x; gcl := v; dfp := dfp x; dq := dq x |}.
+Definition x_dfp x v := {| wact := wact x; bindx := bindx x; slotb := slotb x; pnd := pnd x; dfr := dfr x; stn := stn x; cend := cend x; gcl := gcl x; dfp := v; dq := dq x |}.
+Definition x_dq x v := {| wact := wact x; bindx := bindx x; slotb := slotb x; pnd := pnd x; dfr := dfr x; stn := stn x; cend := cend x; gcl := gcl x; dfp := dfp x; dq := v |}.
 Definition set_pnd x t p := x_pnd x (upd (pnd x) t p).
 
 Record ast := { al : lst; acfg : option N; ax : aux }.
@@ -171,6 +177,28 @@ Definition bind_co (X : Z) (c : nat) (x : aux) : option aux :=
   | Some c' => if Nat.eqb c' c then Some x else None
   | None => if bound_to c (bindx x) || Z.eqb X 0 then None else Some (x_bindx x ((X, c) :: bindx x))
   end.
+
+(* BLOCK_SIZE of may_queue::mpsc.  The push that claims the LAST slot of a block only sets the closing bit of the tail word:
+   push_index() does not count the slot until the pusher re-opens the tail (`self.tail.0.store(next_block)`), and nobody else
+   can claim a slot in between.  A bulk_pop whose try_get finds the slot not ready and whose tail load still sees the closed
+   word returns EMPTY; one whose try_get finds it ready takes it.  So that push takes effect (C03: is linearised) between its
+   `ready` store and its re-opening store: here at the re-opening store, or earlier at the sc.batch that contains it. *)
+Definition mpsc_block : nat := 64.
+
+(* the push into a global run queue that thread t is about to make: queue, model action, bookkeeping *)
+Definition push_of (s : st) (x : aux) (t : nat) : option (nat * list laction * aux) :=
+  match pnd x t with
+  | PdHeldK c k => Some (k, B [Wake c (QG k)], set_pnd x t (PdOwe k))
+  | PdNone =>
+      match stk s t with
+      | FKer _ (KG k) :: _ => Some (k, B [KStep t], x)
+      | FKer _ _ :: _ => None
+      | FPan _ :: _ => None
+      | _ => match agent_pc s t with
+             | Some (SP _ k) => Some (k, B [AStep t], x)
+             | _ => None end
+      end
+  | _ => None end.
 
 Definition plan_ev (l : lst) (x : aux) (ct : N) (e : list Z) : option plan :=
   let s := base l in
@@ -259,9 +287,23 @@ Definition plan_ev (l : lst) (x : aux) (ct : N) (e : list Z) : option plan :=
     | 49 => let w := Z.to_nat o in
             match as_worker x n za w, wpc l w with
             | Some x1, PColl _ =>
-                guardb (negb (cend x w) && is_nil (hand s w) && Z.ltb 0 v)
-                  (P (repeat (LBulkGrab w) (Z.to_nat v) ++ [LBulkEnd w])
-                     (fun l' => match wpc l' w with PPut _ => true | _ => false end) x1)
+                (* a batch longer than the model's queue: it contains the ready last slot of a block whose pusher has not
+                   re-opened the tail yet *)
+                let early := if Nat.ltb (length (gq s w)) (Z.to_nat v)
+                             then match dq x1 w with
+                                  | Some t' => if Nat.eqb (dfp x1 t') 2
+                                               then match push_of s x1 t' with
+                                                    | Some (_, a, x2) => Some (a, x_dq (x_dfp x2 (upd (dfp x2) t' 0%nat)) (upd (dq x2) w None))
+                                                    | None => None end
+                                               else None
+                                  | None => None end
+                             else Some ([], x1) in
+                match early with
+                | Some (a, x2) =>
+                    guardb (negb (cend x w) && is_nil (hand s w) && Z.ltb 0 v)
+                      (P (a ++ repeat (LBulkGrab w) (Z.to_nat v) ++ [LBulkEnd w])
+                         (fun l' => match wpc l' w with PPut _ => true | _ => false end) x2)
+                | None => None end
             | _, _ => None end
     | 50 => let w := Z.to_nat o in
             match as_worker x n za w with
@@ -297,18 +339,19 @@ Definition plan_ev (l : lst) (x : aux) (ct : N) (e : list Z) : option plan :=
             | _ => None end
     (* ---- may_queue::mpsc::Queue::push: the claiming CAS ---- *)
     | 60 => if Z.eqb v 0 then P [] tt_ x else
-            match pnd x t with
-            | PdHeldK c k => P (B [Wake c (QG k)]) tt_ (set_pnd x t (PdOwe k))
-            | PdNone =>
-                match stk s t with
-                | FKer _ (KG _) :: _ => P (B [KStep t]) tt_ x
-                | FKer _ _ :: _ => P [] tt_ x
-                | FPan _ :: _ => P [] tt_ x
-                | _ => match agent_pc s t with
-                       | Some (SP _ _) => P (B [AStep t]) tt_ x
-                       | _ => P [] tt_ x end          (* another mpsc queue: channel, timer, free list *)
-                end
-            | _ => P [] tt_ x end
+            match push_of s x t with
+            | Some (k, a, x1) =>
+                if Nat.eqb (S (gcl x k)) mpsc_block
+                then P [] tt_ (x_dq (x_dfp (x_gcl x (upd (gcl x) k 0%nat)) (upd (dfp x) t 1%nat)) (upd (dq x) k (Some t)))
+                else P a tt_ (x_gcl x1 (upd (gcl x1) k (S (gcl x1 k))))
+            | None => P [] tt_ x end            (* another mpsc queue: channel, timer, free list *)
+    (* ---- BlockNode::set: the `ready` store of a push that closed a block ---- *)
+    | 67 => if Nat.eqb (dfp x t) 1 then P [] tt_ (x_dfp x (upd (dfp x) t 2%nat)) else P [] tt_ x
+    (* ---- Queue::push: the store that re-opens the tail: the push that closed the block takes effect (if no batch took it) ---- *)
+    | 68 => if Nat.eqb (dfp x t) 0 then P [] tt_ x
+            else match push_of s x t with
+                 | Some (k, a, x1) => P a tt_ (x_dq (x_dfp x1 (upd (dfp x1) t 0%nat)) (upd (dq x1) k None))
+                 | None => None end
     (* ---- may_queue::mpsc::Queue::push_index: tail load (bulk_pop found no ready slot) ---- *)
     | 61 => if Nat.ltb t n && negb (cend x t) && is_nil (hand s t) && is_nil (gq s t)
             then match wpc l t with
